@@ -18,6 +18,9 @@ Fixpoint targets (t : label) (s : stmt) : bool :=
   | SLabelled _ s => targets t s
   | STry b c f => tl b || match c with Some c => tl c | None => false end
                        || match f with Some f => tl f | None => false end
+  | SSwitch _ cs =>
+      (fix tc (cs : list (option expr * list stmt)) : bool :=
+         match cs with [] => false | (_, b) :: cs' => tl b || tc cs' end) cs
   end.
 
 Definition targets_list (t : label) (l : list stmt) : bool := existsb (targets t) l.
@@ -41,10 +44,25 @@ Proof.
   simpl. rewrite H. destruct c as [c|]; destruct f as [f|]; simpl; rewrite ?H; reflexivity.
 Qed.
 
+Lemma targets_switch t e cs : targets t (SSwitch e cs) = targets_list t (bodies cs).
+Proof.
+  assert (H : forall l, (fix tl (l : list stmt) : bool :=
+    match l with [] => false | x :: xs => targets t x || tl xs end) l = targets_list t l).
+  { induction l as [|x xs IH]; simpl; [reflexivity|]. now rewrite IH. }
+  simpl. unfold bodies, targets_list. induction cs as [|[c b] cs IH]; simpl; [reflexivity|].
+  rewrite existsb_app, H, IH. reflexivity.
+Qed.
+Lemma targets_list_skipn t cs i : targets_list t (bodies cs) = false -> targets_list t (body_from cs i) = false.
+Proof.
+  unfold body_from. revert i. induction cs as [|[c b] cs IH]; intros i H; destruct i; cbn [skipn]; try assumption.
+  apply IH. unfold bodies, targets_list in *. simpl in H. rewrite existsb_app in H.
+  apply orb_false_iff in H. tauto.
+Qed.
+
 (* body of "t: s" is handled correctly by otto *)
 Fixpoint ok_body (t : label) (s : stmt) : bool :=
   match s with
-  | SBlock _ | SWhile _ _ | SDoWhile _ _ | SFor _ _ _ _ => true
+  | SBlock _ | SWhile _ _ | SDoWhile _ _ | SFor _ _ _ _ | SSwitch _ _ => true
   | SLabelled _ s' => ok_body t s'
   | STry _ c f => negb (targets_olist t c) && negb (targets_olist t f)
   | _ => negb (targets t s)
@@ -61,6 +79,9 @@ Fixpoint wf (s : stmt) : bool :=
   | SLabelled t s => negb (Nat.eqb t 0) && ok_body t s && wf s
   | STry b c f => wl b && match c with Some c => wl c | None => true end
                        && match f with Some f => wl f | None => true end
+  | SSwitch _ cs =>
+      (fix wc (cs : list (option expr * list stmt)) : bool :=
+         match cs with [] => true | (_, b) :: cs' => wl b && wc cs' end) cs
   end.
 
 Definition wf_list (l : list stmt) : bool := forallb wf l.
@@ -82,8 +103,23 @@ Proof.
   { induction l as [|x xs IH]; simpl; [reflexivity|]. now rewrite IH. }
   simpl. rewrite H. destruct c as [c|]; destruct f as [f|]; simpl; rewrite ?H; reflexivity.
 Qed.
+Lemma wf_switch e cs : wf (SSwitch e cs) = wf_list (bodies cs).
+Proof.
+  assert (H : forall l, (fix wl (l : list stmt) : bool :=
+    match l with [] => true | x :: xs => wf x && wl xs end) l = wf_list l).
+  { induction l as [|x xs IH]; simpl; [reflexivity|]. now rewrite IH. }
+  simpl. unfold bodies, wf_list. induction cs as [|[c b] cs IH]; simpl; [reflexivity|].
+  rewrite forallb_app, H, IH. reflexivity.
+Qed.
+Lemma wf_list_skipn cs i : wf_list (bodies cs) = true -> wf_list (body_from cs i) = true.
+Proof.
+  unfold body_from. revert i. induction cs as [|[c b] cs IH]; intros i H; destruct i; cbn [skipn]; try assumption.
+  apply IH. unfold bodies, wf_list in *. simpl in H. rewrite forallb_app in H.
+  apply andb_true_iff in H. tauto.
+Qed.
 End Wf.
 Arguments targets {expr}. Arguments targets_list {expr}. Arguments targets_olist {expr}.
 Arguments ok_body {expr}. Arguments wf {expr}. Arguments wf_list {expr}. Arguments wf_olist {expr}.
 Arguments targets_block {expr}. Arguments targets_while {expr}. Arguments targets_dowhile {expr}. Arguments targets_for {expr}. Arguments wf_dowhile {expr}. Arguments wf_for {expr}. Arguments targets_try {expr}.
+Arguments targets_switch {expr}. Arguments targets_list_skipn {expr}. Arguments wf_switch {expr}. Arguments wf_list_skipn {expr}.
 Arguments wf_block {expr}. Arguments wf_while {expr}. Arguments wf_try {expr}.
